@@ -239,6 +239,11 @@ def recvOpen (s : Streams) (id : Nat) (isPushPromise : Bool) : Streams × Except
         if !s.counts.canIncNumRecvStreams then (s.modRecv fun r => { r with refused := some id }, .ok false)
         else (s, .ok true)
 
+/-- `if stream.state.is_recv_end_stream() { stream.notify_push() }`: when END_STREAM closes the receive side no
+    more PUSH_PROMISE can arrive; a task parked in `poll_pushed` has to hear about it -/
+def notifyPushIfRecvEnded (s : Streams) (id : Nat) : Streams :=
+  if (s.stream id).state.isRecvEndStream then s.modStreamW id Stream.notifyPush else s
+
 /-- `Recv::recv_headers(frame, stream, counts)` -/
 def recvRecvHeaders (s : Streams) (id : Nat) (h : HeadersIn) : Streams × RecvHeadersRes :=
   match (s.stream id).state.recvOpen h.eos h.isInformational with
@@ -290,10 +295,11 @@ def recvRecvHeaders (s : Streams) (id : Nat) (h : HeadersIn) : Streams × RecvHe
           | .ok method uri =>
             let s := s.modStream id fun st => { st with pendingRecv := st.pendingRecv ++ [.request method uri h.fields] }
             let s := s.modStreamW id Stream.notifyRecv
+            let s := s.notifyPushIfRecvEnded id
             ((s.qPush .pendingAccept id).1, .ok)
         else if !h.isInformational then
           let s := s.modStream id fun st => { st with pendingRecv := st.pendingRecv ++ [.headers status h.fields] }
-          (s.modStreamW id Stream.notifyRecv, .ok)
+          ((s.modStreamW id Stream.notifyRecv).notifyPushIfRecvEnded id, .ok)
         else
           let s := s.modStream id fun st => { st with pendingRecv := st.pendingRecv ++ [.informational status h.fields] }
           (s.modStreamW id Stream.notifyRecv, .ok)
@@ -309,7 +315,8 @@ def recvRecvTrailers (s : Streams) (id : Nat) (h : HeadersIn) : Streams × Excep
     else if h.isOverSize then (s, .error (PErr.libraryReset (s.stream id).id PROTOCOL_ERROR))
     else
       let s := s.modStream id fun st => { st with pendingRecv := st.pendingRecv ++ [.trailers h.fields] }
-      (s.modStreamW id Stream.notifyRecv, .ok ())
+      -- the stream has ended: no more PUSH_PROMISE can arrive on it
+      ((s.modStreamW id Stream.notifyRecv).modStreamW id Stream.notifyPush, .ok ())
 
 /-- `Recv::recv_data(frame, stream)`; the frame is (payload, END_STREAM, pad length) -/
 def recvRecvData (s : Streams) (id : Nat) (payload : Bytes) (eos : Bool) (padLen : Option Nat) : Streams × Except PErr Unit :=
@@ -341,7 +348,7 @@ def recvRecvData (s : Streams) (id : Nat) (payload : Bytes) (eos : Bool) (padLen
           match eosRes with
           | (s, some e) => (s, .error e)
           | (s, none) =>
-            if !(s.stream id).isRecv then (s.releaseConnectionCapacity sz false, .ok ())
+            if !(s.stream id).isRecv then ((s.releaseConnectionCapacity sz false).notifyPushIfRecvEnded id, .ok ())
             else
               match (s.stream id).recvFlow.sendData sz with
               | (fl, .error (.reason r)) => (s.modStream id fun st => { st with recvFlow := fl }, .error (PErr.libraryGoAway r))
@@ -353,7 +360,7 @@ def recvRecvData (s : Streams) (id : Nat) (payload : Bytes) (eos : Bool) (padLen
                 if payload.isEmpty && !eos then (s, .ok ())
                 else
                   let s := s.modStream id fun st => { st with pendingRecv := st.pendingRecv ++ [.data payload (!eos)] }
-                  (s.modStreamW id Stream.notifyRecv, .ok ())
+                  ((s.modStreamW id Stream.notifyRecv).notifyPushIfRecvEnded id, .ok ())
 
 /-- `Recv::ensure_can_reserve` -/
 def ensureCanReserve (s : Streams) : Except PErr Unit :=
@@ -632,6 +639,27 @@ def recvPollInformational (s : Streams) (id : Nat) (tag : String) : Streams × P
     match (s.stream id).state.ensureRecvOpen with
     | .error e => (s, .err e)
     | .ok true => (s.modStream id fun st => { st with recvTask := some tag }, .pending)
+    | .ok false => (s, .none)
+
+/-- answer of `poll_pushed` -/
+inductive PollPushed where
+  | pending | none | pushed (key : Nat) (method uri : Bytes) (f : Fields) | err (e : PErr) | panic
+  deriving Repr
+
+/-- `Recv::poll_pushed(cx, stream)`: the next promised stream of this stream's `pending_push_promises`, with the
+    promised request taken off the front of ITS receive queue -/
+def recvPollPushed (s : Streams) (id : Nat) (tag : String) : Streams × PollPushed :=
+  match (s.stream id).pendingPushPromises with
+  | child :: rest =>
+    let s := s.modStream id fun st => { st with pendingPushPromises := rest }
+    let s := s.modStream child fun st => { st with isPendingAccept := false }
+    match (s.stream child).pendingRecv with
+    | .request method uri f :: r => (s.modStream child fun st => { st with pendingRecv := r }, .pushed child method uri f)
+    | _ => (s.panic "Headers not set on pushed stream", .panic)
+  | [] =>
+    match (s.stream id).state.ensureRecvOpen with
+    | .error e => (s, .err e)
+    | .ok true => (s.modStream id fun st => { st with pushTask := some tag }, .pending)
     | .ok false => (s, .none)
 
 end Streams
